@@ -70,6 +70,8 @@ def gen_arith(chk):
         d = rng.choice([rng.randrange(-2 ** 55, 2 ** 55), rng.randrange(-3 * TICK, 3 * TICK), rng.randrange(-100, 100) * TICK + rng.randrange(-2, 3)])
         op = rng.choice(["add", "sub"])
         cases.append((op, "%s %d %d %d" % (op, s, n, d), "mc_%s %d %d %d" % (op, s, n, d), (s, n, d)))
+    # the Coq witness of diff_not_trunc_refuted first, so that it is the reported replay
+    cases.append(("diff", "diff 1 0 0 1", "mc_diff 1 0 0 1", (1, 0, 0, 1)))
     pair_pts = pts if thorough else [(s, n) for (s, n) in pts if abs(s) <= 2 and (canonical(s, n) or n % 7 == 0)]
     for (s1, n1) in pair_pts:
         for (s2, n2) in pair_pts:
